@@ -145,6 +145,7 @@ type Frame struct {
 	defers       []*ssa.Defer
 	retIdx       int
 	specEnvExtra map[string]Value
+	synthLocals  map[string]*ssa.Alloc // names made up by the verifier for specific locals (synthesised clauses)
 	extraModel   []ModelVar
 	loopSeen     map[int]mapIter
 	escaped      map[*ssa.Alloc]bool
